@@ -560,20 +560,24 @@ func ReadAllAnnotations(
 					continue
 				}
 
-				// docs can be in type or genDecl
-				doc := genDecl.Doc
+				// docs can be in type or genDecl: the doc of a type ( ... ) group applies to every
+				// member, a member's own doc (which may be an ordinary comment) adds to it
+				var docLines []*ast.Comment
+				if genDecl.Doc != nil {
+					docLines = append(docLines, genDecl.Doc.List...)
+				}
 				if typeSpec.Doc != nil {
-					doc = typeSpec.Doc
+					docLines = append(docLines, typeSpec.Doc.List...)
 				}
 
-				if doc == nil {
+				if len(docLines) == 0 {
 					continue
 				}
 
 				typeName := typeSpec.Name.Name
 				pos := typeSpec.Pos()
 
-				for _, comment := range doc.List {
+				for _, comment := range docLines {
 					text := comment.Text
 
 					// Micro-optimization: skip comments without annotations
